@@ -7,7 +7,10 @@ Real code: every installed schema plugin and schema classes generated from the g
 missing optional is expressed by omission.
 Oracle (real code only): parse_raw(o.json()) == o, parse_raw(bytes(o)) == o,
 parse_raw(o.yaml()) == o, second trip gives identical text (set-free instances), declared
-constants present in json_dict() with their value and ignored on input.
+constants present with their value in json_dict() / json() / bytes / yaml() — for the instance and for
+every nested schema value of the output (nested, list item, dict value; also values that a custom
+`Parser` class built with construct()) — and ignored on input. An exception raised by the library (or the
+YAML library) on the library's own output is an oracle hit (`parse-of-own-output-raises`), never a crash.
 Histories (real code only): an instance is a live, mutable object (validate_assignment). The same
 clauses are checked on instances that were *reached* by a history of ordinary operations on one
 object: dump (any form) / assignment of a valid value at any depth (nested schema instance, list
@@ -31,12 +34,116 @@ T = "MetadorModel.C12."
 LEAN = dict(
     modules=["MetadorModel.Props.C12"],
     theorems=[T + n for n in [
-        "roundtrip", "roundtrip_at", "roundtrip_idempotent", "constants_forced", "constants_ignored", "omitted_optional_stable",
+        "roundtrip", "roundtrip_at", "roundtrip_idempotent", "constants_forced", "constants_forced_nested", "subObjs_decoded", "encode_subObjs",
+        "constants_ignored", "omitted_optional_stable",
         "explicit_none_reads_default", "roundtrip_needs_unit", "legacy_opaque_not_serialisable"]],
     drivers=["drv_cod"],
 )
 
 NF = {}  # normal-form tables of the opaque codecs, filled by run() through a worker
+
+
+# ----------------------------------------------------------------------------- parser-built value schemas
+# Nested schema values that are NOT produced by pydantic validation but by a custom `Parser` class
+# (schema/parser.py ParserMixin; the documented pattern of schema/common: NumValue / Pixels / SIValue build
+# their result with `tcls.construct(...)` / `tcls(...)`). Field types ["ext", "pv-<variant>"] of generated
+# families (real code only; outside the Lean grammar, the cases carry nomodel=True).
+#   px      Pixels (installed: core.imagefile width / height)          unit inferred, one allowed unit
+#   num     NumValue itself                                            any unit, none inferred
+#   si      SIValue (pint-normalised unit)
+#   metres  user-defined NumValue subclass: own Parser (allowed m / cm, inferred m) and own JSON-LD constants
+#           (@type overridden, a new constant added)
+#   secs    user-defined NumValue subclass: unit required, no constant of its own
+_PV = {}
+PV_VARIANTS = ["px", "num", "si", "metres", "secs"]
+PV_NOINFER = ("num", "secs")  # Parser.infer_unit is None: see the fixed probe `numvalue_probe` (unit-less inputs are kept out of the random pools)
+PV_NUMS = [0, 1, 3, 7, -5, 255, 10 ** 6, 2 ** 53 + 1, 0.0, 0.5, 2.5, -0.25, 1e-7, 1e22, 123456789.125]
+
+
+def _pv_classes():
+    if not _PV:
+        from metador_core.schema.common import NumValue, Pixels, SIValue
+        from metador_core.schema.decorators import add_const_fields
+
+        class Metres(NumValue):
+            class Parser(NumValue.Parser):
+                allowed_units = ["m", "cm"]
+                infer_unit = "m"
+
+        Metres = add_const_fields({"@type": "Distance", "unitSystem": {"name": "SI", "base": ["m"]}}, override=True)(Metres)
+
+        class Secs(NumValue):
+            class Parser(NumValue.Parser):
+                allowed_units = ["s", "ms"]
+                require_unit = True
+
+        _PV.update(px=Pixels, num=NumValue, si=SIValue, metres=Metres, secs=Secs)
+    return _PV
+
+
+def _pv_gen(variant):
+    def gen(rng):
+        n = rng.choice(PV_NUMS)
+        r = rng.random()
+        units = dict(px=["px"], num=["m", "px", "kg m", "%", "a.u."], metres=["m", "cm"], secs=["s", "ms"], si=["meter", "second", "kilogram * meter / second ** 2", "m", "percent"])[variant]
+        if variant == "si":
+            if r < 0.5:
+                return rng.choice(G.QTY_POOL + ["3", "2 px", "1.5 km/h", "5 dimensionless"])
+            d = {"value": n}
+            if r < 0.9:
+                d["unitText"] = rng.choice(units)
+            return d
+        if variant not in PV_NOINFER and r < 0.45:
+            return n  # bare number: the unit is inferred by the Parser
+        d = {"value": n}
+        if variant in PV_NOINFER or r < 0.8:
+            d["unitCode" if rng.random() < 0.2 else "unitText"] = rng.choice(units)
+        if rng.random() < 0.15:
+            d["minValue"] = 0  # dropped by the parser (normalisation), the instance then round-trips
+        return d
+    return gen
+
+
+for _v in PV_VARIANTS:
+    G.register_ext("pv-" + _v, (lambda _v=_v: _pv_classes()[_v]), _pv_gen(_v))
+
+
+def add_pv_fields(rng, fam, p=0.7):
+    """Give classes of a generated family fields holding parser-built value schemas (plain / Optional / List)."""
+    fam = json.loads(json.dumps(fam))
+    for cd in fam:
+        if cd["parent"] and G.eff_extra(fam, cd["parent"]) == "forbid":
+            continue  # a child of a forbidding parent cannot add fields
+        if rng.random() > p:
+            continue
+        for j in range(rng.randrange(1, 3)):
+            t = ["ext", "pv-" + rng.choice(PV_VARIANTS)]
+            r = rng.random()
+            t = t if r < 0.4 else (["opt", t] if r < 0.6 else (["list", t] if r < 0.85 else ["opt", ["list", t]]))
+            cd["fields"].append(["p%d%s" % (j, cd["name"].lower()[0]), t, None])
+    return fam
+
+
+def _pv_unitless(fam, root, inp):
+    """Does the input give a unit-less value to a parser-built value schema whose Parser infers no unit?"""
+    def walk(ty, v):
+        k = ty[0]
+        if k == "ext":
+            return ty[1][3:] in PV_NOINFER and not isinstance(v, bool) and (
+                isinstance(v, (int, float)) or (isinstance(v, dict) and not v.get("unitText") and not v.get("unitCode")))
+        if k in ("opt", "ann"):
+            return v is not None and walk(ty[1], v)
+        if k in ("list", "set"):
+            return isinstance(v, list) and any(walk(ty[1], x) for x in v)
+        if k == "union":
+            return any(walk(t, v) for t in ty[1])
+        if k == "model":
+            try:
+                return isinstance(v, dict) and any(f[0] in v and walk(f[1], v[f[0]]) for f in G.eff_fields(fam, ty[1]))
+            except KeyError:
+                return False
+        return False
+    return walk(["model", root], inp)
 
 
 # ----------------------------------------------------------------------------- oracle (real code)
@@ -75,6 +182,59 @@ def _short(x, n=300):
     return s if len(s) <= n else s[:n] + "..."
 
 
+def _jsonable(x):
+    return json.loads(json.dumps(x))
+
+
+def _nested_consts(v, j, path, out):
+    """Walk the live value `v` and the corresponding part `j` of a parsed output (JSON value) side by side;
+    for every schema value (the instance itself and every nested one) collect the declared constants of its class that are missing / wrong in
+    its part of the output: (path, class name, key, expected, got | _MISSING)."""
+    from pydantic import BaseModel
+
+    if isinstance(v, BaseModel):
+        C = type(v)
+        consts = getattr(C, "__constants__", None) or {}
+        if not isinstance(j, dict):
+            return out  # not dumped as an object: a matter of the round-trip clauses
+        for k, c in consts.items():
+            if c is None:
+                continue  # None means "missing" by convention and is never dumped
+            if k not in j:
+                out.append((path, C.__name__, k, c, _MISSING))
+            elif j[k] != _jsonable(c):
+                out.append((path, C.__name__, k, c, j[k]))
+        for n, x in v.__dict__.items():
+            if x is None or n in consts:
+                continue
+            f = C.__fields__.get(n)
+            key = f.alias if f is not None else n
+            if key in j:
+                _nested_consts(x, j[key], path + [key], out)
+    elif isinstance(v, (list, tuple)):
+        if isinstance(j, list) and len(j) == len(v):
+            for i, (x, y) in enumerate(zip(v, j)):
+                _nested_consts(x, y, path + [i], out)
+    elif isinstance(v, dict):
+        if isinstance(j, dict):
+            for k, x in v.items():
+                if k in j:
+                    _nested_consts(x, j[k], path + [k], out)
+    return out
+
+
+_MISSING = "<missing>"
+
+
+def _load_text(form, text):
+    """The dumped text as a plain JSON value, read without the schema (json / yaml library only)."""
+    if form in ("json", "bytes"):
+        return json.loads(text)
+    from ruamel.yaml import YAML
+
+    return YAML(typ="safe").load(text)
+
+
 def check_instance(S, o, inp, schema_name, hist=None):
     """All clauses of the property for one valid instance. Returns list of violation dicts."""
     V = []
@@ -109,8 +269,12 @@ def check_instance(S, o, inp, schema_name, hist=None):
         except Exception as e:
             bad("parse-of-own-output-raises", form=form, text=text, error="%s: %s" % (type(e).__name__, e))
             return V  # the other forms and the constant clauses fail for the same reason
-        if not (o2 == o):
-            bad("roundtrip-differs", form=form, text=text, got=o2.json() if hasattr(o2, "json") else o2)
+        if _differs(o2, o):
+            try:
+                got = o2.json() if hasattr(o2, "json") else o2
+            except Exception as e:
+                got = "<%s>" % type(e).__name__
+            bad("roundtrip-differs", form=form, text=text, got=got)
             return V
         try:
             text2 = {"json": o2.json, "bytes": o2.__bytes__, "yaml": o2.yaml}[form]()
@@ -125,7 +289,24 @@ def check_instance(S, o, inp, schema_name, hist=None):
                     bad("second-trip-differs", form=form, text=text, text2=text2)
             except Exception as e:
                 bad("parse-of-own-output-raises", form=form + " (second trip)", text=text2, error="%s: %s" % (type(e).__name__, e))
-    # constants
+    # constants of the instance and of every nested schema value (also of values built by a custom Parser class), in every form
+    seen = set()
+    for form in ["json_dict"] + list(forms):
+        try:
+            j = o.json_dict() if form == "json_dict" else _load_text(form, forms[form])
+        except Exception:
+            continue  # unreadable output: reported by the round-trip clauses above
+        for path, cname, k, exp, got in _nested_consts(o, j, [], []):
+            if (tuple(path), k) in seen:
+                continue  # one report per place (first form that shows it)
+            seen.add((tuple(path), k))
+            if got is _MISSING:
+                bad("constant-missing-in-output", form=form, at=path, cls=cname, key=k, expected=exp)
+            else:
+                bad("constant-wrong-in-output", form=form, at=path, cls=cname, key=k, expected=exp, got=got)
+    if V:
+        return V
+    # constants of the instance itself: forced on output whatever the input says about them
     consts = getattr(S, "__constants__", {})
     if consts:
         jd = o.json_dict()
@@ -464,7 +645,7 @@ def _apply(S, st, donors, op):
             else:
                 st["o"] = m2
             return True
-    except (LookupError, TypeError, ValueError, AttributeError):  # ValidationError is a ValueError
+    except Exception:  # refused by the library (ValidationError, parser errors of pint / isodate / yaml ...): state unchanged
         return False
     raise ValueError("unknown history op %r" % (op,))
 
@@ -503,6 +684,12 @@ def run_history(S, a, b, name, ops=None, seed=0, nops=8):
             else:
                 tags.append("hist-state-unverified")
             continue
+        if op[0] == "reparse" and _verified(S, st["o"]):
+            # continuing with the re-parsed own output of a valid instance: all clauses must hold for it first
+            # (an exception of the library / the YAML library on its own output is a violation, never a harness error)
+            V = check_instance(S, st["o"], a, name, hist=dict(inputs=[a, b], ops=list(done) + [["check"]]))
+            if V:
+                return V, tags
         if _apply(S, st, donors, op):
             done.append(op)
             tags.append("hist-op:" + op[0])
@@ -549,6 +736,9 @@ def impl(case):
                 except ValidationError as e:
                     if not G.repair_input(inp, e.errors()):
                         break
+                except Exception as e:  # e.g. tokenize.TokenError out of pint: not a valid instance
+                    tags.append("gen-invalid-exc:%s" % type(e).__name__)
+                    break
             if o is None:
                 tags.append("gen-invalid")
                 continue
@@ -574,7 +764,7 @@ def impl(case):
         for inp in case["inputs"]:
             try:
                 o = S.parse_obj(json.loads(json.dumps(inp)))
-            except ValidationError:
+            except Exception:
                 tags.append("gen-invalid")
                 continue
             oracle += check_instance(S, o, inp, case["schema"])
@@ -601,12 +791,15 @@ def impl(case):
                     tags.append("gen-invalid-exc:%s:%s" % (type(e).__name__, json.dumps(inp)[:200]))
                     continue
                 oracle += check_instance(S, o, inp, case["root"])
+                tags += _inst_tags(case["fam"], case["root"], inp)
+                if case.get("nomodel"):
+                    out += ["-", "-"]  # real code only (oracle): nothing is compared with the model
+                    continue
                 out.append(G.pyval_str(o))
                 try:
                     out.append(G.json_str(o.json_dict()))
                 except Exception as e:  # reported by the oracle as serialise-raises
                     out.append("!%s" % type(e).__name__)
-                tags += _inst_tags(case["fam"], case["root"], inp)
         finally:
             F.close()
         return dict(out=out, oracle=oracle[:20], tags=sorted(set(tags)))
@@ -707,6 +900,16 @@ def _impl_shrink(req):
                 if fails(c):
                     cur = c
             i -= 1
+        # keys of the inputs that only mattered for (or became extras of) the removed parts
+        for which in range(len(cur["inputs"])):
+            def t2(x, which=which):
+                ins = list(cur["inputs"])
+                ins[which] = x
+                return fails(dict(cur, inputs=ins))
+            x = _shrink_json(cur["inputs"][which], t2, budget)
+            ins = list(cur["inputs"])
+            ins[which] = x
+            cur = dict(cur, inputs=ins)
     det = fails(cur) or det
     return dict(out=None, oracle=[], tags=[], case=cur, detail=det)
 
@@ -725,6 +928,9 @@ def _inst_tags(fam, root, inp):
         tg.add("has-const")
     if any(cd["parent"] for cd in fam):
         tg.add("has-inheritance")
+    for v in PV_VARIANTS:
+        if '"pv-%s"' % v in kinds:
+            tg.add("has-parser-built:" + v)
     if len(G.eff_fields(fam, root)) > len(inp):
         tg.add("omitted-optional")
     for v in inp.values():
@@ -803,6 +1009,45 @@ def gen_fam_cases(ctx, n):
     return cases
 
 
+def gen_pv_fam_cases(ctx, n):
+    """Generated families whose classes also hold parser-built value schemas (real code only)."""
+    rng = ctx.rng
+    cases = []
+    for i in range(n):
+        fam = add_pv_fields(rng, G.rand_family(rng, n_classes=rng.randrange(1, 4), depth=rng.randrange(0, 2)))
+        rich = [cd["name"] for cd in fam if '"ext"' in json.dumps(G.eff_fields(fam, cd["name"]))]
+        root = rng.choice(rich) if rich and rng.random() < 0.8 else rng.choice(fam)["name"]
+        inputs = [G.gen_obj(rng, fam, root, 2) for _ in range(4 if ctx.quick else 6)]
+        cases.append(dict(kind="fam", fam=fam, root=root, inputs=inputs, nomodel=True))
+    return cases
+
+
+def pv_focused_families():
+    """Hand-picked shapes with parser-built value schemas (always run, real code only)."""
+    O, L, E = (lambda t: ["opt", t]), (lambda t: ["list", t]), (lambda v: ["ext", "pv-" + v])
+    fams = []
+    # the documented pattern: an image-like record with pixel sizes, a user-defined distance with own constants
+    fams.append(([dict(name="Aa", parent=None, extra=None, fields=[["name", ["nes"], None], ["w", E("px"), None], ["h", O(E("px")), None], ["len", O(E("metres")), None],
+                                                                        ["laps", L(E("secs")), None], ["si", O(E("si")), None], ["any", O(L(E("num"))), None]],
+                       consts=[["@context", "https://schema.org"], ["@type", "Track"]], overrides=[], mandatory=[])], "Aa",
+                 [{"name": "t1", "w": 3, "h": 4.5, "len": 12.5, "laps": [{"value": 61, "unitText": "s"}, {"value": 900, "unitCode": "ms"}], "si": "5 km/h", "any": [{"value": 1, "unitText": "a.u."}]},
+                  {"name": "t2", "w": {"value": 3}, "len": {"value": 7, "unitText": "cm"}, "laps": [], "si": {"value": 2.5, "unitText": "meter"}},
+                  {"name": "t3", "w": {"value": 0, "unitText": "px", "minValue": 0}, "h": 0, "len": 0, "laps": [{"value": 0.5, "unitText": "ms"}], "si": "3"}]))
+    # nested: list of records each holding parser-built values, inherited
+    fams.append(([dict(name="Aa", parent=None, extra=None, fields=[["id", ["nes"], None], ["size", E("px"), None], ["d", O(E("metres")), None]], consts=[["@type", "Item"]], overrides=[], mandatory=[]),
+                  dict(name="Bb", parent="Aa", extra=None, fields=[["t", O(E("secs")), None]], consts=[["@type", "TimedItem"]], overrides=[], mandatory=[]),
+                  dict(name="Cc", parent=None, extra=None, fields=[["items", L(["model", "Aa"]), None], ["best", O(["model", "Bb"]), None]], consts=[], overrides=[], mandatory=[])], "Cc",
+                 [{"items": [{"id": "a", "size": 1, "d": 2}, {"id": "b", "size": {"value": 2.5}}], "best": {"id": "c", "size": 3, "t": {"value": 9.5, "unitText": "s"}}},
+                  {"items": [], "best": {"id": "c", "size": 10 ** 6, "d": {"value": 1, "unitCode": "cm"}}}, {"items": [{"id": "x", "size": 0.5, "zz_extra": 1}]}]))
+    return [dict(kind="fam", fam=f, root=r, inputs=i, nomodel=True) for f, r, i in fams]
+
+
+def numvalue_probe():
+    """Fixed probe (kept out of the random pools): a unit-less value for a NumValue whose Parser infers no unit."""
+    fam = [dict(name="Aa", parent=None, extra=None, fields=[["n", ["ext", "pv-num"], None]], consts=[], overrides=[], mandatory=[])]
+    return dict(kind="fam", fam=fam, root="Aa", inputs=[{"n": 5}, {"n": {"value": 5}}], nomodel=True)
+
+
 def focused_families():
     """Hand-picked shapes the property names (always run)."""
     I, S, O = ["int"], ["str"], lambda t: ["opt", t]
@@ -842,12 +1087,14 @@ def gen_hist_cases(ctx, n):
     """Histories on live instances of generated families (biased to nested schemas and containers)."""
     rng = ctx.rng
     cases = []
-    for f, r, i in [(c["fam"], c["root"], c["inputs"]) for c in focused_families() if not c.get("nomodel")]:
+    for f, r, i in [(c["fam"], c["root"], c["inputs"]) for c in focused_families() if not c.get("nomodel")] + [(c["fam"], c["root"], c["inputs"]) for c in pv_focused_families()]:
         cases.append(dict(kind="hist", fam=f, root=r, inputs=i, seeds=[rng.randrange(1 << 30) for _ in range(6 if ctx.quick else 40)], nops=9))
     for i in range(n):
         fam = G.rand_family(rng, n_classes=rng.randrange(1, 5), depth=rng.randrange(1, 3))
+        if i % 5 == 4:
+            fam = add_pv_fields(rng, fam)  # live instances holding parser-built values (assignment runs the Parser again)
         # roots that hold other schemas / containers first
-        rich = [cd["name"] for cd in fam if any(t in json.dumps(G.eff_fields(fam, cd["name"])) for t in ('"model"', '"list"', '"set"'))]
+        rich = [cd["name"] for cd in fam if any(t in json.dumps(G.eff_fields(fam, cd["name"])) for t in ('"model"', '"list"', '"set"', '"ext"'))]
         root = rng.choice(rich) if rich and rng.random() < 0.8 else rng.choice(fam)["name"]
         inputs = [G.gen_obj(rng, fam, root, 2) for _ in range(3)]
         cases.append(dict(kind="hist", fam=fam, root=root, inputs=inputs, seeds=[rng.randrange(1 << 30) for _ in range(3)], nops=rng.randrange(4, 11)))
@@ -925,7 +1172,8 @@ def run(ctx):
     ctx.rule = ("cases: (inst) every installed schema plugin, instances generated from the field hints (optional = omitted) and built with parse_obj; "
                 "(fam) families of 1-4 schema classes generated from the field-type grammar (strict primitives incl. falsy values, constrained strings, Literal, "
                 "Optional, unambiguous Unions, List, Set of hashables, nested / recursive / inherited schemas, Duration, PintUnit, PintQuantity, constants, extra policies, "
-                "defaults), 4-6 valid inputs each; hand-picked families always run; (hist) histories on one live instance of a generated family or an installed schema: "
+                "defaults), 4-6 valid inputs each; hand-picked families always run; (fam, real code only) the same families with fields holding value schemas that are built by a custom "
+                "Parser class (Pixels, NumValue with unit, SIValue, user-defined NumValue subclasses with own constants / required unit; plain, Optional, List; bare numbers and dicts); (hist) histories on one live instance of a generated family or an installed schema: "
                 "dump / assign at any depth / in-place list, dict, set updates / copy, copy(update) / re-parse, values from a second valid instance at the same field position, "
                 "all clauses re-checked on every reached state that equals a freshly validated instance. Non-trivial = tagged (has-dur/unit/qty/set/union/const/inheritance, omitted optional, falsy value, "
                 "rich installed instance).")
@@ -937,8 +1185,9 @@ def run(ctx):
     ]
     load_nf(ctx)
     corpus = core.load_corpus(ID)
-    fam_cases = [c for c in corpus if c["kind"] == "fam"] + focused_families() + gen_fam_cases(ctx, 300 if ctx.quick else 6000)
-    ensure_nf(ctx, fam_cases)
+    fam_cases = ([c for c in corpus if c["kind"] == "fam"] + focused_families() + pv_focused_families() + [numvalue_probe()]
+                 + gen_fam_cases(ctx, 300 if ctx.quick else 6000) + gen_pv_fam_cases(ctx, 60 if ctx.quick else 1200))
+    ensure_nf(ctx, [c for c in fam_cases if '"ext"' not in json.dumps(c["fam"])])
     ctx.correspond("codec-families", MOD, fam_cases, lines, "drv_cod", compare=compare, timeout=120)
     run_hist(ctx, [c for c in corpus if c["kind"] == "hist"] + gen_hist_cases(ctx, 150 if ctx.quick else 3000))
     names = installed_names()
@@ -981,6 +1230,9 @@ def signature(case, detail):
             return "%s:yaml-nel-character" % ID
         if "mapping values are not allowed" in str(detail.get("error", "")) and any(len(x) > 80 and " " in x for x in strs):
             return "%s:yaml-long-key" % ID
+    if case.get("fam") and kind in ("roundtrip-differs", "parse-of-own-output-raises", "second-trip-text-differs", "second-trip-differs"):
+        if any(isinstance(x, dict) and _pv_unitless(case["fam"], case.get("root"), x) for x in case.get("inputs", [])):
+            return "%s:numvalue-unitless" % ID  # see numvalue_probe
     where = case.get("schema") if case.get("schema") else "generated"
     # a clause violated only on an instance reached by a history (dump / mutate / copy / re-parse ...)
     return "%s:%s:%s%s" % (ID, kind, where, ":after-history" if detail.get("history") else "")
@@ -1055,9 +1307,21 @@ def search(ctx):
         for c, r in zip(cases, res):
             if "ok" in r and r["ok"]["oracle"]:
                 return shrink(ctx, c, r["ok"]["oracle"][0])
+        cases = gen_pv_fam_cases(sub, 100)
+        res = pool.run(MOD, "impl", cases, timeout=120)
+        ctx.search_log.append("seed %d: %d generated families with parser-built value schemas, oracle only" % (sub.seed, len(cases)))
+        for c, r in zip(cases, res):
+            if "ok" in r and r["ok"]["oracle"]:
+                return shrink(ctx, c, r["ok"]["oracle"][0])
         cases = gen_hist_cases(sub, 150)
         res = pool.run(MOD, "impl", cases, timeout=300)
         ctx.search_log.append("seed %d: %d histories on live instances, oracle only" % (sub.seed, len(cases)))
+        for c, r in zip(cases, res):
+            if "ok" in r and r["ok"]["oracle"]:
+                return shrink(ctx, c, r["ok"]["oracle"][0])
+        cases = gen_inst_cases(sub, installed_names())
+        res = pool.run(MOD, "impl", cases, timeout=300)
+        ctx.search_log.append("seed %d: %d batches of instances of installed schemas, oracle only" % (sub.seed, len(cases)))
         for c, r in zip(cases, res):
             if "ok" in r and r["ok"]["oracle"]:
                 return shrink(ctx, c, r["ok"]["oracle"][0])
